@@ -89,7 +89,7 @@ class Env:
         return numpy.array([[self.ctx.uf("V2P", [f, p, canon(x)]) for x in pd]], dtype=object)
 
 
-def run_callback(env, st, tr, F, interp, ntv, system, p_min=0.0, delta_p=1.0):
+def run_callback(env, st, tr, F, interp, ntv, system, p_min=0.0, delta_p=1.0, delta_p_sample=None):
     proxy = NumpyProxy()
     proxy.close_mode = "structural"
     e = env
@@ -121,7 +121,7 @@ def run_callback(env, st, tr, F, interp, ntv, system, p_min=0.0, delta_p=1.0):
     try:
         with patched((tr, {"read_energy": lambda f: e.qin, "read_elast_data": lambda f: e.edata}), (F, {"numpy": proxy})):
             st.main.callback(input01="x", input02=("y" if e.edata is not None else None), interp=interp, ntv=ntv, cellmass=e.cell_opt,
-                             v_ratio=1.2, p_min=p_min, delta_p=delta_p, delta_p_sample=None, system=system)
+                             v_ratio=1.2, p_min=p_min, delta_p=delta_p, delta_p_sample=delta_p_sample, system=system)
     finally:
         logging.disable(logging.NOTSET)
         sys.stdout = old_stdout
@@ -139,15 +139,17 @@ def eq(a, b, name):
     return Z.prove_equal(a, b, name=name, timeout_ms=15000)[0] == "unsat"
 
 
-def check_case(chk, st, tr, F, interp, with_table, system, cell_opt, rng):
-    name = "mode=%s%s%s%s" % (interp, ", table" if with_table else ", no table", ", system=%s" % system if system else "", ", --cellmass" if cell_opt else "")
+def check_case(chk, st, tr, F, interp, with_table, system, cell_opt, rng, sample_mult=None):
+    name = "mode=%s%s%s%s%s" % (interp, ", table" if with_table else ", no table", ", system=%s" % system if system else "", ", --cellmass" if cell_opt else "",
+                               ", --delta-p-sample = %d x --delta-p" % sample_mult if sample_mult else "")
     keys = ["c11", "c12", "c44"] if system == "cubic" else ["c11", "c22", "c33", "c12", "c13", "c23", "c44", "c55", "c66"]
     env = Env(with_table, keys, cell_opt)
-    ntv = 4
+    ntv = 5 if sample_mult else 4
     p_min, dp = 2.0, 3.0
+    mult = sample_mult or 1
     t0 = time.time()
     try:
-        df, proxy = X.run_single_path(lambda: run_callback(env, st, tr, F, interp, ntv, system, p_min, dp), name="C18:" + name)
+        df, proxy = X.run_single_path(lambda: run_callback(env, st, tr, F, interp, ntv, system, p_min, dp, dp * sample_mult if sample_mult else None), name="C18:" + name)
     except SymError as e:
         chk.inconclusive(name, str(e))
         return
@@ -186,6 +188,9 @@ def check_case(chk, st, tr, F, interp, with_table, system, cell_opt, rng):
         Vb = env.v2p(vg[None, ::-1], pg[None, ::-1], pa)[0]
         wantF = env.v2p(fg[None, ::-1], pg[None, ::-1], pa)[0]
         wantP = pa
+        if sample_mult:
+            # --delta-p-sample: every mult-th row of the pressure grid, starting at p_min
+            Vb, wantF, wantP = Vb[::mult], wantF[::mult], wantP[::mult]
     n = len(Vb)
     if len(df) != n:
         fails.append("table has %d rows instead of %d" % (len(df), n))
@@ -201,7 +206,7 @@ def check_case(chk, st, tr, F, interp, with_table, system, cell_opt, rng):
         for r in range(n):
             if interp == "pressure":
                 val = S._try_numeric(Sym.of(df["P"].iloc[r]))
-                if val is None or abs(val - (p_min + dp * r)) > 1e-9:
+                if val is None or abs(val - (p_min + dp * mult * r)) > 1e-9:
                     fails.append("pressure-mode rows do not sit at the requested pressures")
                     break
             elif not eq(df["P"].iloc[r], Sym.of(wantP[r]) * U["GPA"], name + ":P"):
@@ -316,6 +321,21 @@ def replay_cli(chk, rng, what, only_mode=None):
         if mode == "pressure" and numpy.abs(df["P"].to_numpy() - (2 + numpy.arange(len(df)))).max() > 1e-6:
             chk.violation("run-static:P-grid", "pressure-mode rows do not sit at the requested pressures", dict(mode=mode))
             return
+        if mode == "pressure":
+            with warnings.catch_warnings():
+                warnings.simplefilter("ignore")
+                r3 = CliRunner().invoke(st.main, [os.path.join(ex, "input01"), "-I", mode, "-n", "41", "--p-min", "2", "--delta-p", "1", "--delta-p-sample", "4"])
+            if r3.exit_code != 0:
+                chk.violation("run-static:raises[pressure,sampled]", "cij run-static -I pressure --delta-p 1 --delta-p-sample 4 fails: %r" % (r3.exception,), dict(mode=mode))
+                return
+            lines3 = r3.output.splitlines()
+            h3 = next(i for i, l in enumerate(lines3) if l.split()[:3] == ["V", "F", "P"])
+            d3 = pandas.DataFrame([[float(x) for x in l.split()[1:4]] for l in lines3[h3 + 1:] if len(l.split()) >= 4], columns=["V", "F", "P"])
+            want3 = 2 + 4.0 * numpy.arange(11)
+            if len(d3) != 11 or numpy.abs(d3["P"].to_numpy() - want3).max() > 1e-6:
+                chk.violation("run-static:P-grid[sampled]", "with --p-min 2 --delta-p 1 --delta-p-sample 4 -n 41 the rows sit at P = %s... (%d rows) instead of "
+                              "2, 6, 10, ... 42 (11 rows)" % (d3["P"].tolist()[:3], len(d3)), dict(mode=mode))
+                return
         ed_ = read_elast_data(os.path.join(ex, "input02"))
         rho = ed_.cellmass / Vb * gcm3
         if numpy.abs(df["density"].to_numpy() - rho).max() > 1e-6 * rho.max():
@@ -381,6 +401,7 @@ def main():
                   ("none", True, None, True)]
     for interp, wt, system, co in cases:
         check_case(chk, st, tr, F, interp, wt, system, co, rng)
+    check_case(chk, st, tr, F, "pressure", False, None, False, rng, sample_mult=2)
     chk.witness("callback-reached-the-table-printer", "sat" if chk.obligations else "unsat")
     # stage R(b): one real run per mode (catches failures of the real kernels / pandas the stubs cannot see)
     if not _replayed:
